@@ -13,6 +13,7 @@ C12 — line-protocol driver of the model (core only). One op per line, payloads
 -/
 import OG.C12.Good
 import OG.C12.WireDriver
+import OG.C12.Stmt
 
 namespace OG.C12
 open OG.Gen.C12
@@ -178,6 +179,54 @@ def condOf (text : Str) : Option Expr :=
   | none => none
   | some toks => yaccParse toks
 
+def dumpFields (fs : List SField) : String :=
+  "F[" ++ ";".intercalate (fs.map fun f => dump f.1 ++ "@" ++ hexOfStr f.2) ++ "]"
+
+/-- `fields <hex>`: the field list of `SELECT <text> FROM m` as planned, `Fields.String()`, and what
+`hybridqp.ParseFields` makes of that text. -/
+def fieldsAnswer (text : Str) : String :=
+  match yaccLexFields (normInput text) with
+  | none => "reject"
+  | some toks =>
+    match yaccFields toks with
+    | none => "reject"
+    | some fs =>
+      if !numToksInDomain toks || !(fs.all fun f => inDomain f.1) then "unmodelled"
+      else
+        let printed := renderFields fs
+        let f2c := parseFieldsChars printed
+        let ptoks := printFields fs ++ [.kw .FROM, .ident "mock".toList]
+        let f2t := parseFieldsToks ptoks
+        let f2 := match f2c with
+          | some l => dumpFields l
+          | none => "err"
+        let pr := if fs.any (fun f => hasBigSet f.1) then "-" else hexOfStr printed
+        let consistent := f2c = f2t || (f2t.isNone && hasBadTok ptoks)
+        let incons := if consistent then "" else " | MODEL-INCONSISTENT token-level parse differs"
+        "f1 " ++ dumpFields fs ++ " | pr " ++ pr ++ " | f2 " ++ f2 ++ incons
+
+def parseSortArg (s : String) : Option (Str × Bool) :=
+  match s.splitOn "," with
+  | [h, a] => do
+    let n ← unhex h
+    let b ← (if a = "t" then some true else if a = "f" then some false else none)
+    some (n, b)
+  | _ => none
+
+def showSorts (l : List (Str × Bool)) : String :=
+  ":".intercalate (l.map fun f => hexOfStr f.1 ++ "," ++ (if f.2 then "t" else "f"))
+
+/-- `sorts <hex>,<t|f>:…` — `SortFields.String()` and `ParseSortFields` of it. -/
+def sortsAnswer (arg : String) : String :=
+  match (arg.splitOn ":").mapM parseSortArg with
+  | none => "bad-op"
+  | some l =>
+    let printed := Wire.renderSorts l
+    let s2 := match Wire.parseSortFieldsChars printed with
+      | some r => showSorts r
+      | none => "err"
+    "pr " ++ hexOfStr printed ++ " | s2 " ++ s2
+
 def step (line : String) : String :=
   match (line.trimAscii.toString.splitOn " ").filter (· ≠ "") with
   | ["expr", h] =>
@@ -186,6 +235,14 @@ def step (line : String) : String :=
     | none => "bad-op"
   | ["expr"] => exprAnswer []
   | "xexpr" :: _ => "skip"
+  | "xfields" :: _ => "skip"
+  | "xsource" :: _ => "skip"
+  | "xstmt" :: _ => "skip"
+  | ["fields", h] =>
+    match unhex h with
+    | some text => fieldsAnswer text
+    | none => "bad-op"
+  | ["sorts", a] => sortsAnswer a
   | "codec" :: _ => "ok"
   | "opts" :: args => Wire.optsAnswer dump condOf args
   | ["wiredesc", m] => Wire.wiredescAnswer m
